@@ -88,6 +88,11 @@ def gen_scenario(r, cls: str) -> Dict[str, Any]:
     elif cls == "cross":
         symbols = {"BTC": r.choice([4, 8]), "ETH": r.choice([2, 3, 6]), "USD": r.choice([2, 2, 4])}
         pairs = [["BTC", "USD"], ["ETH", "USD"], ["ETH", "BTC"]]
+        if r.random() < 0.5:
+            # a symbol that can only be valued through the inverse of a pair (USD/JPY while the account is normalised
+            # in USD): borrowing it exercises the 1/price conversion path
+            symbols = {"BTC": r.choice([4, 8]), "JPY": r.choice([0, 2]), "USD": r.choice([2, 4])}
+            pairs = [["BTC", "USD"], ["USD", "JPY"]]
     else:
         symbols = {"BTC": r.choice([0, 2, 4, 8]), "ETH": r.choice([0, 1, 3, 8]), "USD": r.choice([0, 2, 2, 2, 5])}
         pairs = [["BTC", "USD"]] + ([["ETH", "USD"]] if r.random() < 0.55 else [])
@@ -126,7 +131,7 @@ def gen_scenario(r, cls: str) -> Dict[str, Any]:
     bars: Dict[str, List] = {}
     same_times = r.random() < 0.6
     for i, (b, qs) in enumerate(pairs):
-        start = {"BTC": D(r.choice([50, 1000, 20000])), "ETH": D(r.choice([3, 50, 1500]))}[b]
+        start = {"BTC": D(r.choice([50, 1000, 20000])), "ETH": D(r.choice([3, 50, 1500])), "USD": D(r.choice([80, 150]))}[b]
         if qs == "BTC":
             start = D(r.choice(["0.05", "0.5", "3"]))
         steps = (1,) if same_times else (1, 1, 1, 2)
@@ -144,6 +149,8 @@ def gen_scenario(r, cls: str) -> Dict[str, Any]:
     else:
         init["USD"] = _s(q(D(r.choice([0, 0, 100, 10000, 1000000])), symbols["USD"]))
         init["BTC"] = _s(q(D(r.choice(["0", "0", "1", "50", "0.5"])), symbols["BTC"]))
+        if "JPY" in symbols:
+            init["JPY"] = _s(q(D(r.choice(["0", "0", "100000"])), symbols["JPY"]))
         if "ETH" in symbols:
             init["ETH"] = _s(q(D(r.choice(["0", "0", "10", "3.5"])), symbols["ETH"]))
         if cls == "margin" and r.random() < 0.3:
@@ -181,6 +188,17 @@ def gen_scenario(r, cls: str) -> Dict[str, Any]:
             # outside the quantifier of the exsim properties)
             sc["jobs"].append({"t": r.randint(1, max(1, tmax - 1)), "half": True,
                                "action": r.choice([{"op": "cancel", "among": "open", "pick": r.randrange(100)},
+                                                   {"op": "repay", "among": "open", "pick": r.randrange(100)},
+                                                   {"op": "query"}])})
+    if lend is not None and r.random() < 0.6:
+        # loans taken and repaid at instants with a sub-second component (interest is proportional to elapsed time at
+        # full clock resolution); big principals so that fractions of a second are visible at the symbol's precision
+        tmax = max(bl[-1][0] for bl in bars.values())
+        for _ in range(r.randint(1, 3)):
+            sym = r.choice(list(symbols))
+            amt = q(D(r.choice([5000, 250000, 5000000])), symbols[sym])
+            sc["jobs"].append({"t": r.randint(1, max(1, tmax - 1)), "half": True, "us": r.choice([1, 250000, r.randrange(10 ** 6), 59 * 10 ** 6 + 999999]),
+                               "action": r.choice([{"op": "loan", "symbol": sym, "amount": _s(amt), "boundary": False},
                                                    {"op": "repay", "among": "open", "pick": r.randrange(100)},
                                                    {"op": "query"}])})
     return sc
